@@ -10,7 +10,7 @@ from .devices import open_device
 from .formats import file_formats
 from .metacommand_impl import get_as_int
 from . import operators
-from .types import Instruction, Label, Assignment, InstructionPointer, WordList, ParenthesizedExpression
+from .types import Instruction, Label, Assignment, InstructionPointer, WordList, ParenthesizedExpression, CodeBlock
 from . import reports
 
 
@@ -266,6 +266,12 @@ class Compiler:
 
                     elif isinstance(symbol, Assignment):
                         # Implicit .word
+                        if any(isinstance(operand, CodeBlock) for operand in insn.operands):
+                            reports.error(
+                                "wrong-operands",
+                                (insn.ctx_start, insn.ctx_end, f"'{insn.name.name}' is a variable, so this is an implicit '.word' list, which does not take a code block")
+                            )
+                            return None
                         words = [insn.name] + insn.operands[:]
                         if len(words) > 1:
                             if isinstance(words[1], ParenthesizedExpression) and words[1].opening_parenthesis == "(":
